@@ -1,0 +1,36 @@
+//go:build verif
+
+package fasta
+
+import "bytes"
+
+// Property-level theorems for /verif/govc, written as client programs of the
+// contracted functions. Never called; verified modularly (each call is
+// replaced by the callee's contract).
+
+//@ theorem C01.roundtrip
+//@   props C01
+//@   requires f != nil
+//@   requires forall j int :: 0 <= j && j < len(f.Name) ==> !nl(f.Name[j])
+//@   requires forall j int :: 0 <= j && j < len(f.Sequence) ==> !nl(f.Sequence[j]) && f.Sequence[j] != '>'
+// A record written with Write and read back is the same record (any name and
+// sequence free of CR/LF, sequence free of '>', every length). k is an
+// arbitrary position: the last assertion holds for every k, i.e. the sequences
+// are equal byte for byte.
+func thmRoundTrip(f *Fasta, k int) {
+	buf := &bytes.Buffer{}
+	f.Write(buf)
+	g, err := newReader(buf).read()
+	//@ assert err == nil && g != nil
+	//@ assert len(g.Name) == len(f.Name)
+	//@ assert forall j int :: 0 <= j && j < len(f.Name) ==> g.Name[j] == f.Name[j]
+	//@ assert len(g.Sequence) == len(f.Sequence)
+	if 0 <= k && k < len(f.Sequence) {
+		//@ assert buf.out[len(f.Name) + 2 + k + k/80] == f.Sequence[k]
+		//@ assert g.Sequence[cnt(arr(buf.out), len(f.Name) + 1, len(f.Name) + 2 + k + k/80)] == buf.out[len(f.Name) + 2 + k + k/80]
+		//@ assert cnt(arr(buf.out), len(f.Name) + 1, len(f.Name) + 2 + k + k/80) == k
+		//@ assert g.Sequence[k] == f.Sequence[k]
+		_ = k
+	}
+	_, _ = g, err
+}
